@@ -177,7 +177,9 @@ def generate(rng, tier):
     return {"lane": "B", "source": name, "text": text, "mutations": desc, "depth": depth, "badutf8": badutf8,
             "delivery": delivery, "config": draw_config(rng), "hashseed": rng.below(1 << 32),
             "via": rng.choice(["file", "file", "cli", "configpath"]) if optout != "ignored" else "file", "optout": optout,
-            "emit": rng.choice([[], [], ["--check"], ["--emit", "stdout"], ["--emit", "json"]]) + rng.choice([[], [], [], ["-v"], ["-q"]])}
+            "emit": rng.choice([[], [], ["--check"], ["--check"], ["--emit", "stdout"], ["--emit", "json"]]) + rng.choice([[], [], [], ["-v"], ["-q"]])
+                    + rng.choice([[], [], [], ["--color", "always"], ["--color", "auto"], ["--color", "never"], ["--config", "color=Always"]]),
+            "term": rng.choice(["dumb", "dumb", "vt100", "xterm", "xterm-256color", None, "no-such-terminal", "ansi"])}
 
 
 LANE_C_SRC = '''/// Example:
@@ -237,8 +239,15 @@ def execute(case):
             argv += ["--config-path", "$ROOT/cfgdir/rustfmt.toml" if case["hashseed"] % 4 < 2 else "$ROOT/cfgdir"]
         else:
             if cfg:
-                argv += ["--config", ",".join("%s=%s" % (k, gen_config.cli_value(x)) for k, x in cfg.items())]
+                kv = ",".join("%s=%s" % (k, gen_config.cli_value(x)) for k, x in cfg.items())
+                if "--config" in argv:  # one --config flag only: merge
+                    i = argv.index("--config")
+                    argv[i + 1] = argv[i + 1] + "," + kv
+                else:
+                    argv += ["--config", kv]
         inv = {"cwd": "w", "hashseed": case["hashseed"]}
+        if "term" in case:
+            inv["env"] = {"TERM": case["term"]}
         if case["delivery"] == "root":
             files["w/input.rs"] = spec
             inv["argv"] = argv + ["input.rs" if case["hashseed"] % 3 else "$ROOT/w/input.rs"]
